@@ -8,6 +8,7 @@ keyed permutation of every directory listing and permuted entries inside each
 pre-existing Manifest - must end with byte-identical Manifests.
 """
 import copy
+import os
 import hashlib
 
 from .. import gen_update as GU
@@ -60,6 +61,14 @@ def generate(rng, tier, idx):
                 m['entries'] = m['entries'][:i] + [e1] + m['entries'][i + 1:] + [e2]
                 for r in sc['rounds']:
                     r['update']['hashes'] = sorted(hs)
+        if rng.random() < 0.25:
+            # names that differ only in case (one directory, one tag): their relative order must still be fixed
+            dirs_ = sorted(set(os.path.dirname(t['p']) for t in sc['tree'] if t.get('k', 'file') == 'file')) or ['']
+            d_ = rng.choice(dirs_)
+            for nm in rng.choice([('README', 'readme'), ('Notes.txt', 'notes.txt', 'NOTES.TXT'), ('a.DAT', 'A.dat')]):
+                p_ = (d_ + '/' if d_ else '') + nm
+                if not any(t['p'] == p_ for t in sc['tree']):
+                    sc['tree'] = sc['tree'] + [{'p': p_, 'k': 'file', 'c': 'case ' + nm}]
         sc['canonical'] = '%016x' % rng.getrandbits(64)
     else:
         sc = GU.gen_history(rng)
